@@ -1560,6 +1560,11 @@ class Engine:
         if isinstance(f, ast.Attribute):
             dotted = self.dotted(f)
             if dotted is not None and dotted.split(".")[0] not in ec.st.env and dotted.split(".")[0] not in ec.bound:
+                fx_ = getattr(ec, "fx", None)
+                here_ = (fx_.contract.opts.get("opaque_here") or {}) if fx_ is not None and getattr(fx_, "contract", None) is not None else {}
+                if dotted in here_ or dotted in self.reg.opaque:
+                    # the sidecar gives this library call an assumed contract of its own (e.g. to record its arguments in a ghost trace)
+                    return self.call_opaque(dotted, None, e, ec, here_.get(dotted) or self.reg.opaque[dotted])
                 m = getattr(self, "lib_" + dotted.replace(".", "_"), None)
                 if m is not None:
                     return m(e, ec)
